@@ -552,6 +552,20 @@ class Lifter:
                             return ('EXPIRED_STRICT', (ent, now, d), True)   # d < now : expired exclusive (wrong)
                 st = [x for x in rest if self.is_stamp_read(x)]
                 tick = [x for x in rest if self.is_tick(x)]
+                if len(rest) == 1 and len(st) == 1:
+                    # the stored instant is already stamp + tick ("due for aging at"): due < now is the strict idle test
+                    s = st[0]
+                    ent = self.elem_entity(unld(s)[1])
+                    if atoms[now] == -1 and rest[s] == 1:
+                        if nop == '<':
+                            return ('AGED', (ent, now, 'due'), True)
+                        if nop == '<=':
+                            return ('AGED_INCL', (ent, now, 'due'), True)
+                    if atoms[now] == 1 and rest[s] == -1:
+                        if nop == '<=':
+                            return ('AGED', (ent, now, 'due'), False)
+                        if nop == '<':
+                            return ('AGED_INCL', (ent, now, 'due'), False)
                 if len(rest) == 2 and len(st) == 1 and len(tick) == 1:
                     s, tk = st[0], tick[0]
                     ent = self.elem_entity(unld(s)[1])
@@ -1395,7 +1409,15 @@ class Segment:
                 if f == getattr(r, 'deadline', None):
                     return Effect('DEADLINE', site, ent=ent, val=val, loc=loc)
                 if f == getattr(r, 'stamp', None):
-                    return Effect('STAMP', site, ent=ent, val=val, loc=loc)
+                    enc = 'plain'
+                    if isinstance(val, tuple) and len(val) == 4 and val[0] == 'bin' and val[1] == '+':
+                        # the idle timer kept as the instant at which the entry becomes due for aging: stamp + tick
+                        a, b = val[2], val[3]
+                        if L.is_tick(b) and isinstance(a, tuple) and a[:1] == ('now',):
+                            val, enc = a, 'due'
+                        elif L.is_tick(a) and isinstance(b, tuple) and b[:1] == ('now',):
+                            val, enc = b, 'due'
+                    return Effect('STAMP', site, ent=ent, val=val, loc=loc, enc=enc)
                 if f in r.backptrs:
                     return Effect('BACKPTR', site, ent=ent, field=f, val=val, loc=loc)
             if L.perm is not None and isinstance(loc, tuple) and loc[0] == 'idx' and loc[1] == L.perm:
